@@ -4,6 +4,7 @@ from __future__ import annotations
 import json
 import os
 import random
+import operator
 import warnings
 from fractions import Fraction
 
@@ -501,6 +502,31 @@ class Check(Property):
                         v.append(f"C16 array in {arr_unit}: a[0] = {val} {val_unit} stores {got}; the scalar conversion gives {want}")
             except Exception as exc:  # noqa: BLE001
                 v.append(f"C16 probe item assignment raised {type(exc).__name__}: {exc}")
+            # powers whose exponent is itself a quantity in a SCALED dimensionless unit (percent, ppm, km / m, degree is an angle and
+            # not used here): the exponent is the pure number it stands for - scalar and array exponents, operator and np.power,
+            # plain, reflected and in-place forms
+            try:
+                for r in (regs.fresh("float"), regs.fresh("float", force_ndarray_like=True)):
+                    for base in (np.array([2.0, 3.0]), 2.0):
+                        for ex_m, ex_u, pure in ((np.array([100.0, 200.0]), "percent", np.array([1.0, 2.0])), (200.0, "percent", 2.0),
+                                                 (np.array([3000.0, 1000.0]), "meter / kilometer", np.array([3.0, 1.0])),
+                                                 (np.array([2.0, 3.0]), "dimensionless", np.array([2.0, 3.0]))):
+                            want = np.power(base, pure)
+                            for name, fn in (("q1 ** q2", lambda a, b: a ** b), ("np.power(q1, q2)", lambda a, b: np.power(a, b)),
+                                             ("base ** q2", lambda a, b: a.magnitude ** b), ("q1 **= q2", operator.ipow)):
+                                a, b = r.Quantity(np.array(base, dtype=float) if name == "q1 **= q2" else base, ""), r.Quantity(ex_m, ex_u)
+                                try:
+                                    res = fn(a, b)
+                                    got = np.asarray(res.to("").magnitude if hasattr(res, "to") else res, dtype=float)
+                                except Exception:  # noqa: BLE001
+                                    continue        # a refusal is not a wrong number
+                                if got.shape != np.asarray(want).shape and got.size != np.asarray(want).size:
+                                    continue
+                                if not np.allclose(got.reshape(np.asarray(want).shape), want, rtol=1e-9):
+                                    v.append(f"C16 {name} with q1 = {base} (dimensionless) and q2 = {ex_m} {ex_u} gives {got.tolist()}; the exponent stands "
+                                             f"for {np.asarray(pure).tolist()}, so NumPy on consistent magnitudes gives {np.asarray(want).tolist()}")
+            except Exception as exc:  # noqa: BLE001
+                v.append(f"C16 probe quantity exponents raised {type(exc).__name__}: {exc}")
         return v
 
     def oracle(self, c):
